@@ -19,9 +19,16 @@ def modules():
     return out
 
 
+def _configs(m, tier):
+    """a contract module may define its own `configs(tier) -> {name: thunk}`; default: contracts/envs.py"""
+    if hasattr(m, "configs"):
+        return m.configs(tier)
+    return E.configs(m.ENV, tier)
+
+
 def run_env(ctx, module, cfg):
     m = importlib.import_module("contracts." + module)
-    env = E.ALL()[m.ENV][cfg]()
+    env = _configs(m, ctx.tier)[cfg]()
     for p in m.problems(env, cfg, ctx.tier):
         p = dict(p)
         title, args, ens = p.pop("title"), p.pop("args"), p.pop("ensures")
@@ -38,6 +45,6 @@ def tasks(prop, tier, modules=None):
         m = importlib.import_module("contracts." + mod)
         if hasattr(m, "PROPS") and prop not in m.PROPS:
             continue
-        for cfg in E.configs(m.ENV, tier):
+        for cfg in _configs(m, tier):
             out[f"{m.ENV}@{cfg}"] = (run_env, {"module": mod, "cfg": cfg})
     return out
